@@ -474,6 +474,165 @@ theorem setVals_spec (s : St) (vals : List Str) :
       simp only [St.read, List.getD_eq_getElem?_getD, List.getElem?_concat_length, Option.getD_some]
       rw [List.getElem?_append_left hi]
 
+/-! the fold path of AppendPermanodeAttrValues on the scratch arrays -/
+
+theorem delLoop_shift (pre mid post : List Str) (x : Str) :
+    List.take pre.length (pre ++ x :: mid ++ post) ++
+        List.take (pre.length + (x :: mid).length - pre.length - 1)
+          (List.drop (pre.length + 1) (pre ++ x :: mid ++ post)) ++
+        List.drop (pre.length + (x :: mid).length - 1) (pre ++ x :: mid ++ post) =
+      pre ++ mid ++ ((x :: mid).drop mid.length ++ post) := by
+  have h1 : pre.length + (x :: mid).length - pre.length - 1 = mid.length := by simp
+  have h2 : pre.length + (x :: mid).length - 1 = pre.length + mid.length := by simp
+  have h3 : pre ++ x :: mid ++ post = pre ++ (x :: (mid ++ post)) := by simp
+  have h4 : List.drop (pre.length + 1) pre = [] := List.drop_eq_nil_of_le (by omega)
+  have h5 : List.drop mid.length (x :: (mid ++ post)) = List.drop mid.length (x :: mid) ++ post := by
+    rw [← List.cons_append, List.drop_append_of_le_length (by simp)]
+  rw [h1, h2, h3, List.take_left' rfl, List.drop_append, List.drop_length_add_append]
+  simp only [Nat.add_sub_cancel_left, List.drop_succ_cons, List.drop_zero, h4, List.nil_append,
+    List.take_left' rfl, h5, List.append_assoc]
+
+/-- the in-place delete loop: from `pre ++ mid ++ post` with `i = |pre|`, `len = |pre| + |mid|` it
+leaves `pre ++ (mid without val) ++ junk ++ post` and the new length -/
+theorem delLoop_spec (val : Str) : ∀ (fuel : Nat) (pre mid post : List Str), mid.length < fuel →
+    ∃ junk, delLoop val fuel pre.length (pre.length + mid.length) (pre ++ mid ++ post) =
+      (pre ++ mid.filter (fun v => v != val) ++ junk ++ post,
+        pre.length + (mid.filter (fun v => v != val)).length)
+  | 0, _, _, _, h => by omega
+  | fuel + 1, pre, [], post, _ => ⟨[], by simp [delLoop]⟩
+  | fuel + 1, pre, x :: mid, post, h => by
+    have hget : (pre ++ x :: mid ++ post).getD pre.length [] = x := by
+      simp [List.getD_eq_getElem?_getD]
+    have hlt : ¬ (pre.length ≥ pre.length + (x :: mid).length) := by simp
+    simp only [delLoop, hlt, if_false, hget]
+    cases hx : x == val with
+    | true =>
+      have hl : pre.length + (x :: mid).length - 1 = pre.length + mid.length := by simp
+      obtain ⟨junk, hj⟩ := delLoop_spec val fuel pre mid ((x :: mid).drop mid.length ++ post)
+        (by simp at h; omega)
+      refine ⟨junk ++ (x :: mid).drop mid.length, ?_⟩
+      rw [if_pos rfl, delLoop_shift, hl, hj]
+      simp [hx, bne]
+    | false =>
+      obtain ⟨junk, hj⟩ := delLoop_spec val fuel (pre ++ [x]) mid post (by simp at h; omega)
+      refine ⟨junk, ?_⟩
+      simp only [Bool.false_eq_true, if_false]
+      have e1 : pre.length + 1 = (pre ++ [x]).length := by simp
+      have e2 : pre.length + (x :: mid).length = (pre ++ [x]).length + mid.length := by simp; omega
+      have e3 : pre ++ x :: mid ++ post = pre ++ [x] ++ mid ++ post := by simp
+      rw [e1, e2, e3, hj]
+      simp [hx, bne]; omega
+
+theorem take_succ_set {α} (a : List α) (n : Nat) (v : α) (h : n < a.length) :
+    (a.set n v).take (n + 1) = a.take n ++ [v] := by
+  rw [List.take_add_one, List.take_set_of_le (Nat.le_refl _), List.getElem?_set_self h]; rfl
+
+theorem take_take_append {α} (a r : List α) (n : Nat) (v : α) (h : n ≤ a.length) :
+    (a.take n ++ [v] ++ r).take (n + 1) = a.take n ++ [v] := by
+  apply List.take_left'
+  simp; omega
+
+theorem arr_of_ge {s : St} {id : Nat} (h : s.arrs.length ≤ id) : s.arr id = [] := by
+  unfold St.arr; rw [List.getD_eq_getElem?_getD, List.getElem?_eq_none h]; rfl
+
+theorem arr_set {s : St} {id : Nat} (a : List Str) (c : Nat) (h : id < s.arrs.length) :
+    St.arr ⟨s.arrs.set id a, c⟩ id = a := by
+  simp [St.arr, List.getD_eq_getElem?_getD, List.getElem?_set_self h]
+
+theorem arr_append_self {s : St} (a : List Str) (c : Nat) :
+    St.arr ⟨s.arrs ++ [a], c⟩ s.arrs.length = a := by
+  simp [St.arr, List.getD_eq_getElem?_getD]
+
+/-- `dst` holds `vals`: the first `d.len` entries of its array -/
+def DstInv (s : St) (d : Dst) (vals : List Str) : Prop :=
+  (s.arr d.id).take d.len = vals ∧ d.len ≤ (s.arr d.id).length
+
+theorem push_spec {s : St} {d : Dst} {vals : List Str} (h : DstInv s d vals) (v : Str) :
+    DstInv (s.push d v).1 (s.push d v).2 (vals ++ [v]) := by
+  obtain ⟨h1, h2⟩ := h
+  unfold St.push
+  simp only
+  split
+  · rename_i hlt
+    have hid : d.id < s.arrs.length := by
+      apply Classical.byContradiction
+      intro hn
+      rw [arr_of_ge (by omega)] at hlt; simp at hlt
+    unfold DstInv
+    simp only [arr_set _ _ hid, List.length_set]
+    exact ⟨by rw [take_succ_set _ _ _ hlt, h1], by omega⟩
+  · rename_i hge
+    unfold DstInv
+    simp only [arr_append_self]
+    refine ⟨?_, ?_⟩
+    · rw [take_take_append _ _ _ _ h2]
+      exact congrArg (· ++ [v]) h1
+    · simp only [List.length_append, List.length_take, List.length_cons, List.length_nil]
+      omega
+
+theorem foldClaim_spec {s : St} {d : Dst} {vals : List Str} (h : DstInv s d vals) (c : Claim) :
+    DstInv (St.foldClaim (s, d) c).1 (St.foldClaim (s, d) c).2 (applyClaim vals c) := by
+  unfold St.foldClaim applyClaim
+  simp only
+  cases c.kind with
+  | set => exact push_spec (vals := []) ⟨by simp, by simp⟩ c.value
+  | add => exact push_spec h c.value
+  | delete => exact h
+  | del =>
+    simp only
+    cases hv : c.value.isEmpty with
+    | true => exact ⟨by simp, by simp⟩
+    | false =>
+      obtain ⟨h1, h2⟩ := h
+      simp only [Bool.false_eq_true, if_false]
+      have hlen : vals.length = d.len := by rw [← h1]; simp; omega
+      have hdec : s.arr d.id = [] ++ vals ++ (s.arr d.id).drop d.len := by
+        rw [← h1]; simp
+      obtain ⟨junk, hj⟩ := delLoop_spec c.value (2 * d.len + 1) [] vals ((s.arr d.id).drop d.len) (by omega)
+      rw [← hdec] at hj
+      simp only [List.length_nil, Nat.zero_add, hlen, List.nil_append] at hj
+      rw [hj]
+      simp only
+      by_cases hid : d.id < s.arrs.length
+      · unfold DstInv
+        simp only [arr_set _ _ hid]
+        exact ⟨by rw [List.append_assoc]; exact List.take_left' rfl, by simp⟩
+      · have hnil : s.arr d.id = [] := arr_of_ge (by omega)
+        have hv0 : vals = [] := by rw [← h1, hnil]; simp
+        unfold DstInv
+        subst hv0
+        simp [St.arr, List.getD_eq_getElem?_getD, List.getElem?_eq_none (Nat.le_of_not_lt hid)]
+
+theorem foldl_foldClaim_spec : ∀ (cls : List Claim) (s : St) (d : Dst) (vals : List Str), DstInv s d vals →
+    DstInv (cls.foldl St.foldClaim (s, d)).1 (cls.foldl St.foldClaim (s, d)).2 (cls.foldl applyClaim vals)
+  | [], _, _, _, h => h
+  | c :: cls, s, d, vals, h => by
+    simp only [List.foldl_cons]
+    exact foldl_foldClaim_spec cls _ _ _ (foldClaim_spec h c)
+
+theorem foldVals_spec (s : St) (cls : List Claim) :
+    (s.foldVals cls).2.2 = (cls.foldl applyClaim []).length ∧
+      ∀ i, i < (cls.foldl applyClaim []).length →
+        (s.foldVals cls).1.read (s.foldVals cls).2 i = (cls.foldl applyClaim []).getD i [] := by
+  obtain ⟨h1, h2⟩ := foldl_foldClaim_spec cls s ⟨s.cur, 0⟩ [] ⟨by simp, by simp⟩
+  unfold St.foldVals
+  generalize cls.foldl St.foldClaim (s, ⟨s.cur, 0⟩) = sd at h1 h2 ⊢
+  obtain ⟨s1, d⟩ := sd
+  simp only at h1 h2 ⊢
+  have hlen : (cls.foldl applyClaim []).length = d.len := by rw [← h1]; simp; omega
+  refine ⟨hlen.symm, fun i hi => ?_⟩
+  rw [← h1]
+  simp only [St.read, St.arr, List.getD_eq_getElem?_getD] at *
+  rw [List.getElem?_take_of_lt (by omega)]
+
+theorem fetchVals_spec (w : World) (st : St) (pn : Ref) (attr : Str) (atT : Time) :
+    (fetchVals w st pn attr atT).2.2 = (w.attrVals pn attr atT).length ∧
+      ∀ i, i < (w.attrVals pn attr atT).length →
+        (fetchVals w st pn attr atT).1.read (fetchVals w st pn attr atT).2 i = (w.attrVals pn attr atT).getD i [] := by
+  unfold fetchVals
+  split
+  · exact setVals_spec st _
+  · exact foldVals_spec st _
 theorem valsLoop_spec {valM : Str → St → R} {φ : Str → Bool} {view : Nat × Nat} {vals : List Str}
     (hv : ∀ v s, valM v s = .ok (φ v, s)) :
     ∀ (k i nm : Nat) (st : St), i + k = vals.length →
@@ -636,7 +795,7 @@ theorem good_attr {t : Pk.Ref.Tbl} {w : World} {p : PFlat} {inSet : Cons} {bm : 
       cases p.hasValueConstraint inSet.isNil with
       | false => exact ⟨st0, by simp, hFalse _⟩
       | true =>
-        rw [valsLoop_spec (φ := valPhi t w p inSet) (vals := w.attrVals bm.ref p.attr)
+        rw [valsLoop_spec (φ := valPhi t w p inSet) (vals := w.attrVals bm.ref p.attr p.atT)
           (attrValM_spec (hin ha)) _ 0 0 st0 (by omega) hread]
         simp only [List.drop_zero, Nat.zero_add]
         generalize (List.filter (valPhi t w p inSet) (w.attrVals bm.ref p.attr p.atT)).length = g
